@@ -144,11 +144,11 @@ class C16(Prop):
 
     def cases(self, rng, n, tier):
         if tier == 'thorough':
-            # singles only: every sequence of 7 ops (cap <= 4, <= 4 tasks); with same-iteration pairs: 6 groups (cap <= 2) / 5 (cap 3)
-            # / 4 (cap 4)
-            for cap in (1, 2, 3, 4):
-                yield from self._exhaustive(cap, 7, 4, pairs=False)
-            for cap, length in ((1, 6), (2, 6), (3, 5), (4, 4)):
+            # weights 0..cap.  singles only: every sequence of 7 ops (cap 1, 2) / 6 ops (cap 3, 4), <= 4 tasks; with same-iteration
+            # pairs: 5 groups (cap 1, 2) / 4 groups (cap 3, 4)
+            for cap, length in ((1, 7), (2, 7), (3, 6), (4, 6)):
+                yield from self._exhaustive(cap, length, 4, pairs=False)
+            for cap, length in ((1, 5), (2, 5), (3, 4), (4, 4)):
                 yield from self._exhaustive(cap, length, 4)
         else:
             for cap in (1, 2):
